@@ -77,6 +77,9 @@ def metabook(draw):
     for k in ("title", "subtitle", "editor", "summary", "description", "sort_as", "cover_image"):
         if draw(st.integers(0, 3)) == 0:
             mb[k] = draw(title)
+    if draw(st.integers(0, 7)) == 0:
+        # a big book (the request text exceeds 32 KiB / 64 KiB): size-dependent paths such as caches for large requests
+        mb["summary"] = (mb.get("summary") or "s") + " lorem ipsum" * draw(st.sampled_from([3000, 6000]))
     if draw(st.integers(0, 2)) == 0:
         mb["settings"] = draw(plain_dict)
     if draw(st.integers(0, 3)) == 0:
@@ -323,6 +326,8 @@ def run_shard(ctx):
             len(a[2]) > 2 for a in arts)
         nt = any(c.get("items") for c in chapters) and optset
         labels = ["mut:" + case["mutation"][0], "items:%d" % min(len(mb["items"]), 4)]
+        if len(case["spell_a"]) >= 32768:
+            labels.append("big-book")
         if nt:
             labels.append("nontrivial")
         if "settings" in mb or any(isinstance(a[2].get("x_custom"), dict) for a in arts):
